@@ -33,56 +33,71 @@
 #include <string.h>
 #include <libgen.h>
 
-// Insert the content of "etc_file.file_entry" into "fe" if there is no
-// group specified
-size_t insert_nogroup(econf_file *dest_kf, struct file_entry **fe,
-		      econf_file *ef) {
-  size_t etc_start = 0;
-  if (ef) {
-    while (etc_start < ef->length &&
-	   !strcmp(ef->file_entry[etc_start].group, KEY_FILE_NULL_VALUE)) {
-      (*fe)[etc_start] = cpy_file_entry(dest_kf, ef->file_entry[etc_start]);
-      etc_start++;
-    }
+// Returns true if an entry of "kf" in front of entry "num" has the same
+// group, or (with_key) the same group and key, as entry "num".
+static bool seen_before(const econf_file *kf, size_t num, bool with_key) {
+  for (size_t i = 0; i < num; i++) {
+    if (!strcmp(kf->file_entry[i].group, kf->file_entry[num].group) &&
+	(!with_key || !strcmp(kf->file_entry[i].key, kf->file_entry[num].key)))
+      return true;
   }
-  return etc_start;
+  return false;
+}
+
+// Append all entries of "group" to "fe": the entries of usr_file in their
+// order, values replaced by those of etc_file, followed by the keys which
+// only etc_file has. The first definition of a key in etc_file counts.
+static size_t merge_group(econf_file *dest_kf, struct file_entry **fe,
+			  econf_file *uf, econf_file *ef, const char *group,
+			  size_t merge_length) {
+  const size_t start = merge_length;
+
+  for (size_t i = 0; i < uf->length; i++) {
+    if (!strcmp(uf->file_entry[i].group, group))
+      (*fe)[merge_length++] = cpy_file_entry(dest_kf, uf->file_entry[i]);
+  }
+  for (size_t j = 0; j < ef->length; j++) {
+    if (strcmp(ef->file_entry[j].group, group) || seen_before(ef, j, true))
+      continue;
+    bool new_key = true;
+    for (size_t k = start; k < merge_length; k++) {
+      // If an existing key is found in ef take the value from ef
+      if (!strcmp((*fe)[k].key, ef->file_entry[j].key)) {
+	free((*fe)[k].value);
+	(*fe)[k].value = ef->file_entry[j].value ? strdup(ef->file_entry[j].value) : strdup("");
+	new_key = false;
+	break;
+      }
+    }
+    // If a new key is found for an existing group append it to the group
+    if (new_key)
+      (*fe)[merge_length++] = cpy_file_entry(dest_kf, ef->file_entry[j]);
+  }
+  return merge_length;
+}
+
+// Insert the entries of both files into "fe" for which there is no
+// group specified. They are always the first ones.
+size_t insert_nogroup(econf_file *dest_kf, struct file_entry **fe,
+		      econf_file *uf, econf_file *ef) {
+  if (uf && ef)
+    return merge_group(dest_kf, fe, uf, ef, KEY_FILE_NULL_VALUE, 0);
+  return 0;
 }
 
 // Merge contents from existing usr_file groups
 // uf: usr_file, ef: etc_file
 size_t merge_existing_groups(econf_file *dest_kf, struct file_entry **fe, econf_file *uf,
 			     econf_file *ef, const size_t etc_start) {
-  bool new_key;
-  size_t merge_length = etc_start, tmp = etc_start, added_keys = etc_start;
+  size_t merge_length = etc_start;
   if (uf && ef) {
-    for (size_t i = 0; i <= uf->length; i++) {
-      // Check if the group has changed in the last iteration
-      if (i == uf->length ||
-	  (i && strcmp(uf->file_entry[i].group, uf->file_entry[i - 1].group))) {
-	for (size_t j = etc_start; j < ef->length; j++) {
-	  // Check for matching groups
-	  if (!strcmp(uf->file_entry[i - 1].group, ef->file_entry[j].group)) {
-	    new_key = true;
-	    for (size_t k = merge_length; k < i + tmp; k++) {
-	      // If an existing key is found in ef take the value from ef
-	      if (!strcmp((*fe)[k].key, ef->file_entry[j].key)) {
-		free((*fe)[k].value);
-		(*fe)[k].value = ef->file_entry[j].value ? strdup(ef->file_entry[j].value) : strdup("");
-		new_key = false;
-		break;
-	      }
-	    }
-	    // If a new key is found for an existing group append it to the group
-	    if (new_key)
-	      (*fe)[i + added_keys++] = cpy_file_entry(dest_kf, ef->file_entry[j]);
-	  }
-	}
-	merge_length = i + added_keys;
-	// Temporary value to reduce amount of iterations in inner for loop
-	tmp = added_keys;
-      }
-      if (i != uf->length)
-	(*fe)[i + added_keys] = cpy_file_entry(dest_kf, uf->file_entry[i]);
+    for (size_t i = 0; i < uf->length; i++) {
+      // Every group once, in the order of its first entry
+      if (!strcmp(uf->file_entry[i].group, KEY_FILE_NULL_VALUE) ||
+	  seen_before(uf, i, false))
+	continue;
+      merge_length = merge_group(dest_kf, fe, uf, ef, uf->file_entry[i].group,
+				 merge_length);
     }
   }
   return merge_length;
@@ -93,20 +108,22 @@ size_t add_new_groups(econf_file *dest_kf, struct file_entry **fe,
 		      econf_file *uf, econf_file *ef,
 		      const size_t merge_length) {
   size_t added_keys = merge_length;
-  bool new_key;
+  bool new_group;
   if (uf && ef) {
     for (size_t i = 0; i < ef->length; i++) {
-      if (!strcmp(ef->file_entry[i].group, KEY_FILE_NULL_VALUE))
+      if (!strcmp(ef->file_entry[i].group, KEY_FILE_NULL_VALUE) ||
+	  seen_before(ef, i, false))
 	continue;
-      new_key = true;
+      new_group = true;
       for (size_t j = 0; j < uf->length; j++) {
 	if (!strcmp(uf->file_entry[j].group, ef->file_entry[i].group)) {
-	  new_key = false;
+	  new_group = false;
 	  break;
 	}
       }
-      if (new_key)
-	(*fe)[added_keys++] = cpy_file_entry(dest_kf, ef->file_entry[i]);
+      if (new_group)
+	added_keys = merge_group(dest_kf, fe, uf, ef, ef->file_entry[i].group,
+				 added_keys);
     }
     if (added_keys > 0)
       *fe = realloc(*fe, (added_keys) * sizeof(struct file_entry));
